@@ -240,3 +240,67 @@ func scaledSnapDiff(before, after *skSnap, f float64) string {
 	}
 	return ""
 }
+
+// decodeIsMerge checks that `after` (the decode target) holds exactly the per-index sums of
+// its previous content (nothing if fresh) and the sources' contents.
+func decodeIsMerge(tBefore *skSnap, all []*skSnap, srcs []int, after *skSnap, fresh bool, withStats bool) string {
+	sum := func(sel func(*skSnap) map[int]uint64) map[int]float64 {
+		m := map[int]float64{}
+		if !fresh {
+			for k, v := range sel(tBefore) {
+				m[k] += math.Float64frombits(v)
+			}
+		}
+		for _, si := range srcs {
+			for k, v := range sel(all[si-1]) {
+				m[k] += math.Float64frombits(v)
+			}
+		}
+		return m
+	}
+	cmp := func(name string, want map[int]float64, got map[int]uint64) string {
+		if len(want) != len(got) {
+			return fmt.Sprintf("%s store holds %d bins after decoding, %d expected (target before + encoded content)", name, len(got), len(want))
+		}
+		for k, v := range want {
+			if g, ok := got[k]; !ok || math.Float64frombits(g) != v {
+				return fmt.Sprintf("%s bin %d holds %v after decoding, expected %v (target before + encoded content)", name, k, math.Float64frombits(g), v)
+			}
+		}
+		return ""
+	}
+	if d := cmp("positive", sum(func(s *skSnap) map[int]uint64 { return s.Pos.Bins }), after.Pos.Bins); d != "" {
+		return d
+	}
+	if d := cmp("negative", sum(func(s *skSnap) map[int]uint64 { return s.Neg.Bins }), after.Neg.Bins); d != "" {
+		return d
+	}
+	z := 0.0
+	if !fresh {
+		z = math.Float64frombits(tBefore.Zero)
+	}
+	for _, si := range srcs {
+		z += math.Float64frombits(all[si-1].Zero)
+	}
+	if math.Float64frombits(after.Zero) != z {
+		return fmt.Sprintf("zero weight %v after decoding, expected %v", math.Float64frombits(after.Zero), z)
+	}
+	if fresh && len(srcs) == 1 {
+		// same content => same answers to every query
+		src := all[srcs[0]-1]
+		for i := range after.Qs {
+			if after.Qs[i] != src.Qs[i] {
+				return fmt.Sprintf("quantile %d/8 of the decoded sketch is %v, the source answers %v", i, math.Float64frombits(after.Qs[i]), math.Float64frombits(src.Qs[i]))
+			}
+		}
+		if after.Min != src.Min || after.Max != src.Max || after.Count != src.Count {
+			return "count/min/max of the decoded sketch differ from the source's"
+		}
+		if withStats && after.Exact && src.Exact {
+			if after.XCount != src.XCount || after.XMin != src.XMin || after.XMax != src.XMax || after.XSum != src.XSum {
+				return fmt.Sprintf("exact statistics of the decoded sketch differ from the source's: %s vs %s", after.String(), src.String())
+			}
+		}
+	}
+	return ""
+}
